@@ -21,6 +21,17 @@ def inner(f):
     return f._field if type(f) in (M.Optional, M.Conditional) else f
 
 
+def kind(f):
+    """known base class whose codec methods the (possibly subclassed) field object uses, or None"""
+    from pyipmi.msgs import message as M
+    f = inner(f)
+    for K in (M.CompletionCode, M.UnsignedInt, M.Bitfield, M.VariableByteArray, M.ByteArray, M.String,
+              M.RemainingBytes):
+        if isinstance(f, K):
+            return K
+    return None
+
+
 def fields_of(cls):
     """tuple of field objects, or None (no __fields__), or 'malformed'"""
     if '__fields__' not in dir(cls):
@@ -113,10 +124,10 @@ def gen_in_range(cls, rng, mode='random', n_present=None):
     var_fixups = []
 
     def base_val(f):
-        t = type(f)
+        t = kind(f)
         if t is M.CompletionCode:
             return ('int', 0)
-        if isinstance(f, M.UnsignedInt):
+        if t is M.UnsignedInt:
             top = 256 ** f.length
             if top == 1:
                 return ('int', 0)
@@ -151,7 +162,7 @@ def gen_in_range(cls, rng, mode='random', n_present=None):
             return ('bytes', bytes(rng.randrange(256) for _ in range(f.length)))
         if t is M.RemainingBytes:
             return ('bytes', bytes(rng.randrange(256) for _ in range(rng.choice([0, 1, 2, 7, 20]))))
-        raise TypeError('unknown field class %s' % t.__name__)
+        raise TypeError('unknown field class %s' % type(f).__name__)
 
     env = []
     for i, f in enumerate(fs):
@@ -161,7 +172,7 @@ def gen_in_range(cls, rng, mode='random', n_present=None):
                 env.append(('none',))
                 continue
             v = base_val(f._field)
-            if type(f._field) is M.RemainingBytes and v[1] == b'':
+            if kind(f._field) is M.RemainingBytes and v[1] == b'':
                 v = ('bytes', bytes([rng.randrange(256)]))
         elif type(f) is M.Conditional:
             set_env_prefix(obj, fs, env)
@@ -179,10 +190,10 @@ def gen_in_range(cls, rng, mode='random', n_present=None):
             # find which earlier field the length function reads by probing
             target = None
             for j, g in enumerate(fs[:i]):
-                if isinstance(g, M.UnsignedInt) and type(g) is not M.CompletionCode:
+                if kind(g) is M.UnsignedInt and type(g) not in (M.Optional, M.Conditional):
                     setattr(probe, g.name, 0)
             for j, g in enumerate(fs[:i]):
-                if isinstance(g, M.UnsignedInt) and type(g) is not M.CompletionCode:
+                if kind(g) is M.UnsignedInt and type(g) not in (M.Optional, M.Conditional):
                     setattr(probe, g.name, 77)
                     if f._length_func(probe) == 77:
                         target = j
